@@ -922,7 +922,40 @@ def uns_const_bit(s, rng, gen):
     return s, {"kind": "mask-bit-set-by-constant", "comb": "optA", "class": "constant-bit"}
 
 
-UNSAFE_EDITS = [uns_change_tag, uns_size_bit, uns_const_bit, uns_remove_constructor, uns_remove_function, uns_remove_field, uns_remove_targ, uns_change_type, uns_change_type,
+def uns_reuse_bit_through_template(s, rng, gen):
+    """append a field guarded by a bit of a local # field that is given meaning inside a template type the field is
+    passed to: (optA m X) uses bits of m inside optA, (wrapA m X) inside wrapA and, one level deeper, optA"""
+    lib = {c["n"]: c for c in s if c["n"] in ("optA", "wrapA")}
+    if "optA" not in lib:
+        return None
+    inner = {"optA": direct_bits(lib["optA"], "n"), "OptA": direct_bits(lib["optA"], "n")}
+    if "wrapA" in lib:
+        inner["wrapA"] = inner["WrapA"] = direct_bits(lib["wrapA"], "m") | inner["optA"]
+    cands = []
+    for ci, c in enumerate(s):
+        if c["k"] == "b" or c["n"] in lib:
+            continue
+        for fi, name in local_nat_fields(c):
+            bits = set()
+            for f in c["f"][fi + 1:]:
+                if f["r"]:
+                    continue
+                for p_, n in nodes(f["t"]):
+                    if not isinstance(n, int) and n[0] in inner and n[2] and not isinstance(n[2][0], int) and n[2][0][0] == name:
+                        bits |= inner[n[0]]
+            bits -= direct_bits(c, name)
+            if bits:
+                cands.append((ci, name, sorted(bits)))
+    if not cands:
+        return None
+    ci, name, bits = rng.choice(cands)
+    s = copy.deepcopy(s)
+    c = s[ci]
+    c["f"].append(F(fresh_field_name(c), R(rng.choice(PRIMS)), mask=(name, rng.choice(bits))))
+    return s, {"kind": "reuse-mask-bit-of-template", "comb": c["n"], "class": "guard"}
+
+
+UNSAFE_EDITS = [uns_reuse_bit_through_template, uns_reuse_bit_through_template, uns_change_tag, uns_size_bit, uns_const_bit, uns_remove_constructor, uns_remove_function, uns_remove_field, uns_remove_targ, uns_change_type, uns_change_type,
                 uns_change_type, uns_flip_bare, uns_change_repeat_scale, uns_mask_edit, uns_mask_edit, uns_append_unmasked,
                 uns_reuse_bit, uns_to_union, uns_to_union]
 
